@@ -6,7 +6,7 @@ mkdir -p /tmp/sw; git -C /repo worktree remove --force "$WT" 2>/dev/null
 git -C /repo worktree add -q --detach "$WT" HEAD || exit 3
 cd "$WT" || exit 3
 R_CLEAN=$(PYTHONPATH="$WT/src" timeout 300 /venv/bin/python "$SRC/demo.py" >/tmp/sw/${PID}_$M.clean.log 2>&1; echo $?)
-if ! git apply "$SRC/patch.diff" 2>/tmp/sw/${PID}_$M.apply.log; then echo "$PID $M APPLY-FAILED"; git -C /repo worktree remove --force "$WT"; exit 4; fi
+if ! git apply "$SRC/patch.diff" 2>/tmp/sw/${PID}_$M.apply.log && ! git apply -C1 --recount "$SRC/patch.diff" 2>>/tmp/sw/${PID}_$M.apply.log; then echo "$PID $M APPLY-FAILED"; git -C /repo worktree remove --force "$WT"; exit 4; fi
 R_PATCH=$(PYTHONPATH="$WT/src" timeout 300 /venv/bin/python "$SRC/demo.py" >/tmp/sw/${PID}_$M.patched.log 2>&1; echo $?)
 SUITE=$(/venv/bin/python /tmp/wt/tools/baseline_compare.py --repo "$WT" -n 6 | head -1)
 cd /; git -C /repo worktree remove --force "$WT"
